@@ -1088,6 +1088,11 @@ class Interp:
             if V.is_bytes(b):
                 a, b = b, a
             if is_sym(b):
+                ia = V.items_of(a)
+                if len(ia) == 1 and not is_sym(ia[0]):
+                    # one constant byte repeated a symbolic number of times: symbolic-length constant string
+                    n = z3.If(b < 0, 0, b)
+                    return V.ABytes(z3.K(z3.IntSort(), z3.IntVal(ia[0])), 0, n)
                 raise Unsupported('byte string repeated a symbolic number of times at %s' % self.here(node, frame))
             mut = isinstance(a, bytearray) or (isinstance(a, SBytes) and a.mutable)
             return V.mk_bytes(V.items_of(a) * max(0, b), mut)
@@ -1450,6 +1455,21 @@ class Interp:
             return None
         finally:
             self.depth -= 1
+
+    def run_fragment(self, frag):
+        """execute the selected loop body of a real function once, free variables taken from frag.env"""
+        from .contract import find_loop
+        fv = self.loader.find_function(frag.func)
+        node = find_loop(fv.node, frag.selector)
+        frame = Frame(fv, fv.module, dict(frag.env))
+        self.inlined.add(fv.qualname + '<fragment>')
+        try:
+            self.exec_block(node.body, frame)
+        except ContinueSig:
+            pass
+        except BreakSig:
+            pass
+        return frame.locals
 
     def bind_args(self, fv, args, kwargs):
         a = fv.node.args
